@@ -7,7 +7,7 @@ use itertools::Itertools;
 use state::type_variable::TypeVariable;
 
 use crate::{
-    constant::BYTE_SIZE_BITS,
+    constant::{BYTE_SIZE_BITS, WORD_SIZE_BITS},
     error::{
         container::Locatable,
         unification::{Error, Errors, Result},
@@ -242,6 +242,9 @@ impl TypeChecker {
                 AbiValue::Type(typ) => layout.add(index, 0, typ),
                 AbiValue::Packed(types) => types
                     .into_iter()
+                    // Nested packed types can claim more bits than the value that contains
+                    // them has, but a storage slot ends at its last bit
+                    .filter(|(_, offset)| *offset < WORD_SIZE_BITS)
                     .for_each(|(typ, offset)| layout.add(index, offset, typ)),
             }
         }
